@@ -418,6 +418,15 @@ Definition tt_step (s : ttable) (a : alloc_st) (o : tt_op) : res (tt_out * ttabl
       end
   end.
 
+Fixpoint tt_run (s : ttable) (a : alloc_st) (ops : list tt_op) : res (list tt_out * ttable * alloc_st) :=
+  match ops with
+  | [] => Ok ([], s, a)
+  | o :: r =>
+      do (out, s1, a1) <- tt_step s a o;
+      do (outs, s2, a2) <- tt_run s1 a1 r;
+      Ok (out :: outs, s2, a2)
+  end.
+
 (** ------------------------------------------------------------------------------------------------
     The ideal object: an association list strictly sorted by [cmp] on the keys, plus the same
     key-based cursor. *)
@@ -512,6 +521,25 @@ Definition spec_step (st : spec_state) (o : tt_op) : (stat * list N) * spec_stat
       end
   end.
 
+(** The ideal object driven through a history.  It has no allocator: where the implementation reported a
+    refused allocation (the status list [sts] of the run under comparison) the ideal state stays put. *)
+Definition is_alloc_err (st : stat) : bool := match st with CC_ERR_ALLOC => true | _ => false end.
+Definition spec_step_d (st : spec_state) (o : tt_op) (seen : stat) : (stat * list N) * spec_state :=
+  if is_alloc_err seen then ((CC_ERR_ALLOC, []), st) else spec_step st o.
+Fixpoint spec_run_d (st : spec_state) (ops : list tt_op) (sts : list stat) : list (stat * list N) * spec_state :=
+  match ops, sts with
+  | o :: r, x :: sts' =>
+      let (res, st1) := spec_step_d st o x in
+      let (rs, st2) := spec_run_d st1 r sts' in (res :: rs, st2)
+  | _, _ => ([], st)
+  end.
+(** without refusals *)
+Fixpoint spec_run (st : spec_state) (ops : list tt_op) : list (stat * list N) * spec_state :=
+  match ops with
+  | [] => ([], st)
+  | o :: r => let (res, st1) := spec_step st o in let (rs, st2) := spec_run st1 r in (res :: rs, st2)
+  end.
+
 (** ------------------------------------------------------------------------------------------------
     CC_TreeSet: a table whose values are the dummy (int * ) 1, with its own header block. *)
 Record tset := { ts_tab : ttable; ts_hdr : N }.
@@ -564,6 +592,23 @@ Definition ts_step (s : tset) (a : alloc_st) (o : ts_op) : res (tt_out * tset * 
 
 Definition ts_spec_step (st : spec_state) (o : ts_op) : (stat * list N) * spec_state :=
   let '((s, vals), st') := spec_step st (ts_to_tt o) in ((ts_stat o s, ts_vals o vals), st').
+
+Fixpoint ts_spec_run_d (st : spec_state) (ops : list ts_op) (sts : list stat) : list (stat * list N) * spec_state :=
+  match ops, sts with
+  | o :: r, x :: sts' =>
+      let (res, st1) := if is_alloc_err x then ((CC_ERR_ALLOC, []), st) else ts_spec_step st o in
+      let (rs, st2) := ts_spec_run_d st1 r sts' in (res :: rs, st2)
+  | _, _ => ([], st)
+  end.
+
+Fixpoint ts_run (s : tset) (a : alloc_st) (ops : list ts_op) : res (list tt_out * tset * alloc_st) :=
+  match ops with
+  | [] => Ok ([], s, a)
+  | o :: r =>
+      do (out, s1, a1) <- ts_step s a o;
+      do (outs, s2, a2) <- ts_run s1 a1 r;
+      Ok (out :: outs, s2, a2)
+  end.
 
 (** ------------------------------------------------------------------------------------------------
     Run-time validator (proved equivalent to [rb_inv] in TreeProofs): root black, no red-red,
